@@ -444,6 +444,15 @@ TRUSTED_BASE = [
 
 
 def check(pid, tier, replay=None):
+    # two runs of the same property share its run directory and evidence file: serialise them
+    lockname = ("run-" + pid) if not SCRATCH else None
+    if lockname:
+        with Lock(lockname):
+            return _check(pid, tier, replay)
+    return _check(pid, tier, replay)
+
+
+def _check(pid, tier, replay=None):
     t0 = time.time()
     seed = int(os.environ.get("VERIF_SEED", "1") or "1")
     cfgpath = os.path.join(VERIF, "props", pid + ".json")
